@@ -30,39 +30,34 @@ def r09_1(ctx) -> None:
     if not isinstance(a, ast.Name):
         ctx.fail("R09.1", dec, s.node, "json.loads is not applied to a local holding the transport's payload")
         return
-    checked = {eng.entry("jws", "deserialize_compact"): "payload", eng.entry("jwe", "decrypt_compact"): "plaintext"}
-    defs = eng.flow._defs(dec).get(a.id, [])
+    # the octets parsed as claims are the payload of the object jws.deserialize_compact returned, or the plaintext of the object jwe.decrypt_compact
+    # returned (integrity check first) - wherever in the jwt module that is written (helper functions or inline)
+    from .common import resolve_all
+    scope = [f for f in eng.cg.reachable([dec]) if f.module is dec.module]
+    res = eng.flow.slice(dec, a, scope, [dec])
+    want_fields = {"CompactSignature.payload", "CompactEncryption.plaintext"}
+    okf = bool(res.fields) and set(res.fields) <= want_fields and not res.exploded
+    ctx.check(okf, "R09.1", dec, s.node, f"{dec.short} :: source of the claims octets", f"the octets parsed as claims come from {sorted(res.fields) or 'no object field'}: not (only) the payload / "
+              "plaintext of the verified / decrypted object", "obj.payload of deserialize_compact / obj.plaintext of decrypt_compact", construct="claims octets source")
     n = 0
-    good = bool(defs)
-    for kind, dn, extra in defs:
-        if kind != "assign" or not isinstance(dn, ast.Call) or not extra or extra[0][0] != "idx":
-            if kind == "assign" and dn is None:
-                continue
-            ctx.fail("R09.1", dec, dn if isinstance(dn, ast.AST) else s.node, f"`{a.id}` is defined by something other than the result of a transport helper")
-            good = False
-            continue
-        idx = extra[0][1]
-        hs = eng.cg.site_of.get(id(dn))
-        if hs is None or not hs.callees:
-            ctx.fail("R09.1", dec, dn, "transport helper not resolved")
-            good = False
-            continue
-        for H in hs.callees:
-            for r in cfg_of(H).returns():
+    tr = {"payload": eng.entry("jws", "deserialize_compact"), "plaintext": eng.entry("jwe", "decrypt_compact")}
+    for f in scope:
+        for node in fn_nodes(f):
+            if isinstance(node, ast.Attribute) and isinstance(node.ctx, ast.Load) and node.attr in tr and isinstance(node.value, ast.Name) and node.value.id not in f.params:
                 n += 1
-                v = r.ast.value
-                el = v.elts[idx] if isinstance(v, ast.Tuple) and idx < len(v.elts) else None
-                ok = False
-                if isinstance(el, ast.Attribute) and isinstance(el.value, ast.Name):
-                    odefs = [d for d in eng.flow._defs(H).get(el.value.id, []) if d[0] == "assign"]
-                    if len(odefs) == 1 and isinstance(odefs[0][1], ast.Call):
-                        es = eng.cg.site_of.get(id(odefs[0][1]))
-                        if es is not None and len(es.callees) == 1 and es.callees[0] in checked and checked[es.callees[0]] == el.attr:
-                            # the token given to the transport is the one given to decode
-                            ok = True
-                ctx.check(ok, "R09.1", H, r.ast, f"{H.short} :: {norm(r.ast)[:60]}", "the octets parsed as claims are not the payload / plaintext of the object returned by "
-                          "jws.deserialize_compact / jwe.decrypt_compact (integrity check first)", "payload of the verified object")
-    ctx.count("R09.1", n, 2, "transport helper returns")
+                defs = [d for k_, d, e_ in eng.flow._defs(f).get(node.value.id, []) if k_ == "assign" and isinstance(d, ast.Call)]
+                good = bool(defs)
+                for d in defs:
+                    site = eng.cg.site_of.get(id(d))
+                    if site is None or site.callees != [tr[node.attr]]:
+                        good = False
+                    else:
+                        a0 = eng.cg.arg_for_param(site, tr[node.attr], "value")
+                        if a0 is None or not any(("value" in t_) for t_ in resolve_all(eng, f, a0)):
+                            good = False
+                ctx.check(good, "R09.1", f, node, f"{f.short} :: {norm(node)}", f"`{norm(node)}` is read from an object that is not the result of "
+                          f"{tr[node.attr].short}(<the token given to decode>, ...)", "object returned by the transport entry", construct=f"{node.attr} read in {f.short}")
+    ctx.count("R09.1", n, 2, "payload / plaintext reads in the jwt module")
     # nothing else is parsed / returned: the Token is built from header+claims of these helpers only
     rets = cfg_of(dec).returns()
     for r in rets:
